@@ -444,7 +444,8 @@ class Result:
                 "notes": self.notes,
             },
             "assumptions": self.assumptions or [
-                "HiGHS (highspy 1.15) is trusted as a MILP solver inside the library",
+                "HiGHS (highspy 1.15) is the MILP solver inside the library and part of the system under test: what it returns is judged "
+                "like any other result (one instance where its presolve cuts off the optimum is a known finding)",
                 "TLC 1.8 and the CommunityModules Json/IOUtils modules are trusted",
                 "instances above the stated bounds are not explored"],
             "wall_s": round(time.time() - self.t0, 2),
